@@ -79,7 +79,7 @@ pub struct Field {
 
 #[derive(Clone)]
 pub struct Seed {
-    pub op: &'static str,
+    pub op: String,
     pub bytes: Vec<u8>,
     /// fields worth corrupting (counts, offsets, sizes, enum tags, terminators)
     pub fields: Vec<Field>,
@@ -148,8 +148,8 @@ impl B {
     pub fn pos(&self) -> usize {
         self.v.len()
     }
-    pub fn seed(self, op: &'static str) -> Seed {
-        Seed { op, bytes: self.v, fields: self.fields, bounds: self.bounds, extra: String::new() }
+    pub fn seed(self, op: &str) -> Seed {
+        Seed { op: op.to_string(), bytes: self.v, fields: self.fields, bounds: self.bounds, extra: String::new() }
     }
 }
 
@@ -338,12 +338,12 @@ pub fn corrupt_values(cur: u64, width: usize) -> Vec<u64> {
 /// every single-field corruption, plus a few random byte/bit flips
 pub fn mutate(seed: &Seed, rng: &mut Rng, thorough: bool, out: &mut dyn Write) {
     let n = seed.bytes.len();
-    emit(out, seed.op, &seed.bytes, &seed.extra);
+    emit(out, &seed.op, &seed.bytes, &seed.extra);
     // truncations
     let full_limit = if thorough { 8192 } else { 1200 };
     if n <= full_limit {
         for k in 0..n {
-            emit(out, seed.op, &seed.bytes[..k], &seed.extra);
+            emit(out, &seed.op, &seed.bytes[..k], &seed.extra);
         }
     } else {
         let mut pts: Vec<usize> = vec![0, 1, 2, 3, 4, 7, 8, n - 1];
@@ -366,21 +366,21 @@ pub fn mutate(seed: &Seed, rng: &mut Rng, thorough: bool, out: &mut dyn Write) {
         pts.dedup();
         for k in pts {
             if k < n {
-                emit(out, seed.op, &seed.bytes[..k], &seed.extra);
+                emit(out, &seed.op, &seed.bytes[..k], &seed.extra);
             }
         }
     }
     // with trailing garbage
     let mut longer = seed.bytes.clone();
     longer.extend_from_slice(&rng.bytes(9));
-    emit(out, seed.op, &longer, &seed.extra);
+    emit(out, &seed.op, &longer, &seed.extra);
     // single-field corruptions
     for f in &seed.fields {
         let cur = get(&seed.bytes, f);
         for v in corrupt_values(cur, f.width) {
             let mut m = seed.bytes.clone();
             put(&mut m, f, v);
-            emit(out, seed.op, &m, &seed.extra);
+            emit(out, &seed.op, &m, &seed.extra);
         }
     }
     // random single-byte changes
@@ -395,7 +395,7 @@ pub fn mutate(seed: &Seed, rng: &mut Rng, thorough: bool, out: &mut dyn Write) {
                 2 => m[i] ^ (1 << rng.below(8)),
                 _ => rng.next() as u8,
             };
-            emit(out, seed.op, &m, &seed.extra);
+            emit(out, &seed.op, &m, &seed.extra);
         }
     }
 }
